@@ -168,6 +168,12 @@ struct IsoWorld {
             if ((path.size() >= 2)&&(path[1] == *c)) continue;
             for (size_t q=0; q<pp.size(); q++) if ((PatMatch(pp[q].pat, path))&&((pp[q].f == 0)||(pp[q].f == n->second))) {expect[n->first] = n->second; break;} }
          std::map<std::string, uint32> got; std::map<std::string, std::map<std::string, uint32> >::const_iterator g = sn.mirror.find(*c); if (g != sn.mirror.end()) got = g->second;
+         // a session with PR_NAME_DISABLE_SUBSCRIPTIONS is sent nothing ("disable all subscription updates"): wherever its mirror differs now, it lags - and keeps lagging after the
+         // parameter is removed (nothing is re-sent), until later changes reach it
+         { std::map<std::string, std::set<std::string> >::const_iterator pp2 = sn.params.find(*c); bool deaf = false;
+           if (pp2 != sn.params.end()) for (std::set<std::string>::const_iterator q = pp2->second.begin(); q != pp2->second.end(); ++q) if (q->compare(0, 6, "!Dsub=") == 0) deaf = true;
+           if (deaf) { for (std::map<std::string, uint32>::iterator x = expect.begin(); x != expect.end(); ++x) if ((!got.count(x->first))||(got[x->first] != x->second)) hush.insert(std::make_pair(*c, x->first));
+                       for (std::map<std::string, uint32>::iterator x = got.begin(); x != got.end(); ++x) if (!expect.count(x->first)) hush.insert(std::make_pair(*c, x->first)); } }
          // hushed nodes: forgiven while they differ, forgotten once they agree
          for (std::set<std::pair<std::string, std::string> >::iterator h = hush.begin(); h != hush.end(); ) { if (h->first != *c) {++h; continue;}
             const bool eIn = expect.count(h->second) > 0, gIn = got.count(h->second) > 0;
@@ -381,6 +387,12 @@ static void DoCommandStep(IsoWorld & iw, const J & step, FullView & before, Full
    if (step.has("st")) iw.CompareWithModel(after.sn, step["st"], who, false, when);
 }
 
+static bool IsDeaf(const Snap & sn, const std::string & name)
+{
+   std::map<std::string, std::set<std::string> >::const_iterator p = sn.params.find(name); if (p == sn.params.end()) return false;
+   for (std::set<std::string>::const_iterator q = p->second.begin(); q != p->second.end(); ++q) if (q->compare(0, 6, "!Dsub=") == 0) return true;
+   return false;
+}
 // what must hold after `who` has gone: no node, no mark, no mirror entry of it anywhere; everybody else as before
 static void CheckErased(IsoWorld & iw, const std::string & who, const FullView * before, FullView & after, const char * when)
 {
@@ -395,7 +407,7 @@ static void CheckErased(IsoWorld & iw, const std::string & who, const FullView *
    for (std::map<std::string, std::map<std::string, uint32> >::iterator i = after.sn.marks.begin(); i != after.sn.marks.end(); ++i) for (std::map<std::string, uint32>::iterator j = i->second.begin(); j != i->second.end(); ++j)
       if ((j->second)&&((j->first == who)||(j->first[0] == '#'))) iw.V(std::string(when) + ": node " + i->first + " still carries a subscriber mark of " + j->first);
    for (std::map<std::string, std::map<std::string, uint32> >::iterator i = after.sn.mirror.begin(); i != after.sn.mirror.end(); ++i) for (std::map<std::string, uint32>::iterator j = i->second.begin(); j != i->second.end(); ++j)
-      if (((j->first == root)||(j->first.compare(0, root.size()+1, root+"/") == 0))&&(!iw.hush.count(std::make_pair(i->first, j->first)))) iw.V(std::string(when) + ": subscriber " + i->first + " was not told that " + j->first + " is gone");
+      if ((!IsDeaf(after.sn, i->first))&&((j->first == root)||(j->first.compare(0, root.size()+1, root+"/") == 0))&&(!iw.hush.count(std::make_pair(i->first, j->first)))) iw.V(std::string(when) + ": subscriber " + i->first + " was not told that " + j->first + " is gone");
    if (before) for (int i=0; i<3; i++) if ((iw.s[i]->name != who)&&(before->sn.conn.count(iw.s[i]->name))) {
       const std::string pb = ProjText(before->sn, iw.s[i]->name, before->otree, before->oidx, before->eff), pa = ProjText(after.sn, iw.s[i]->name, after.otree, after.oidx, after.eff);
       if (pb != pa) iw.V(std::string(when) + ": the departure of " + who + " changed the projection of " + iw.s[i]->name + ":" + FirstDiff(pb, pa)); }
@@ -410,13 +422,15 @@ static void Probe(IsoWorld & iw, const J & expState, const char * when)
    for (size_t i=0; i<expState["psub"].size(); i++) {IsoWorld::FPat fp; fp.f = (uint32) expState["psub"][i][(size_t)3].i(); if (!expState["psub"][i][(size_t)1].truthy()) {fp.pat.push_back("*"); fp.pat.push_back("*");} const J & p = expState["psub"][i][(size_t)2]; for (size_t k=0; k<p.size(); k++) fp.pat.push_back(iw.RealClause(p[k].str())); pats[expState["psub"][i][(size_t)0].str()].push_back(fp);}
    {MessageRef m = Msg(PR_COMMAND_SETDATA); m()->AddMessage("a", Msg(11)); m()->AddMessage("a/b", Msg(12)); m()->AddMessage("q", Msg(13)); iw.w.Send(iw.obs, m); iw.w.Settle();}
    const char * rel[] = {"a", "a/b", "q"}; const uint32 pay[] = {11, 12, 13};
+   std::set<std::string> deaf; for (size_t i=0; i<expState["params"].size(); i++) if (expState["params"][i][(size_t)1].str() == PR_NAME_DISABLE_SUBSCRIPTIONS) deaf.insert(expState["params"][i][(size_t)0].str());
    for (int i=0; i<3; i++) { Client * c = iw.s[i]; if ((!c->connected)||(!iw.w.Attached(c))) continue;
+      if (deaf.count(c->name)) {for (int k=0; k<3; k++) {const std::string path = iw.obs->root + "/" + rel[k]; if (c->mirror.count(path)) iw.V(std::string(when) + ": probe node " + rel[k] + " was reported to " + c->name + " although it has disabled all subscription updates");} continue;}
       for (int k=0; k<3; k++) { const std::string path = iw.obs->root + "/" + rel[k]; bool sel = false; const std::vector<IsoWorld::FPat> & pp = pats[c->name];
          for (size_t q=0; q<pp.size(); q++) if ((PatMatch(pp[q].pat, SplitPath(path)))&&((pp[q].f == 0)||(pp[q].f == pay[k]))) sel = true;
          const bool has = (c->mirror.count(path) > 0)&&(c->mirror[path] == pay[k]);
          if (sel != has) iw.V(std::string(when) + ": probe node " + rel[k] + " set by the observer " + (has ? "WAS" : "was NOT") + " reported to " + c->name + ", whose subscriptions " + (sel ? "select it" : "do not select it")); } }
    {MessageRef m = Msg(PR_COMMAND_REMOVEDATA); m()->AddString(PR_NAME_KEYS, "*"); iw.w.Send(iw.obs, m); iw.w.Send(iw.obs0, GetMessageFromPool(*m())); iw.w.Settle();}
-   for (int i=0; i<3; i++) { Client * c = iw.s[i]; if ((!c->connected)||(!iw.w.Attached(c))) continue;
+   for (int i=0; i<3; i++) { Client * c = iw.s[i]; if ((!c->connected)||(!iw.w.Attached(c))||(deaf.count(c->name))) continue;
       for (int k=0; k<3; k++) {const std::string path = iw.obs->root + "/" + rel[k]; if (c->mirror.count(path)) {iw.V(std::string(when) + ": removal of probe node " + rel[k] + " was not reported to " + c->name); c->mirror.erase(path);}} }
 }
 
@@ -587,4 +601,46 @@ static int CtrLeakDirected(int argc, char ** argv)
    if (kids != 8) {J v = J::Arr(); v.push(J::Str("directed case F40: the ordered inserts did not create 8 children")); row.set("drift", v);}
    else if (notI0) {J v = J::Arr(); char t[400]; snprintf(t, sizeof(t), "%d of 8 brand-new nodes of s2 named their FIRST server-chosen child other than I0 after s1 (whose nodes had handed out I0..I2) departed: %s", notI0, names.c_str()); v.push(J::Str(t)); row.set("violations", v);}
    RepJ(row); J s2 = J::Obj(); s2.set("summary", J::Bool(true)).set("cases", J::Int(1)); RepJ(s2); return 0;
+}
+
+// privileges (Isolation.tla, PrivCases): server instances configured with a privilege pattern the way muscled does (central-state fields priv0..priv2), sessions whose
+// addresses are equal to / an extension of / a prefix of / unrelated to it.  An UNPRIVILEGED session's KICK / ADDBANS / REMOVEBANS / ADDREQUIRES / REMOVEREQUIRES are bounced
+// with PR_RESULT_ERRORACCESSDENIED, give it no privilege bits, disconnect nobody and change nothing
+static void PrivTree(DataNode & n, std::string & out) {String np; (void) n.GetNodePath(np); char b[32]; snprintf(b, sizeof(b), "=%u;", n.GetData()() ? n.GetData()()->what : 0); out += np(); out += b; for (DataNodeRefIterator it = n.GetChildIterator(); it.HasData(); it++) PrivTree(*it.GetValue()(), out);}
+static int PrivRun(int argc, char ** argv)
+{
+   if (argc < 4) return 2;
+   std::vector<J> mf; if ((!ReadCases(argv[2], mf))||(mf.empty())) {fprintf(stderr, "cannot read %s\n", argv[2]); return 3;}
+   if (!OpenReport(argv[3])) return 3;
+   const J & pc = mf[0]["priv"]; long sessions = 0, denied = 0, privileged = 0, kicks = 0;
+   for (size_t ci=0; (ci<pc.size())&&(g_violCases < 25); ci++) { const J & c = pc[ci]; g_cases++; SetCur(mj::ToString(c));
+      std::vector<std::string> viol, drift;
+      World w; const std::string pat = c["pat"].str();
+      for (int p=0; p<PR_NUM_PRIVILEGES; p++) {char fn[16]; snprintf(fn, sizeof(fn), "priv%i", p); (void) w.srv->GetCentralState().AddString(fn, pat.c_str());}
+      Client * victim = w.Add("victim", "10.9.9.9"); std::vector<Client *> cs; for (size_t h=0; h<c["hosts"].size(); h++) cs.push_back(w.Add(c["hosts"][h].str().c_str(), c["hosts"][h].str().c_str()));
+      w.Settle();
+      {MessageRef m = Msg(PR_COMMAND_SETDATA); m()->AddMessage("a", Msg(1)); m()->AddMessage("a/b", Msg(2)); w.Send(victim, m); for (size_t h=0; h<cs.size(); h++) w.Send(cs[h], GetMessageFromPool(*m())); w.Settle();}
+      static const uint32 cmds[] = {PR_COMMAND_KICK, PR_COMMAND_ADDBANS, PR_COMMAND_REMOVEBANS, PR_COMMAND_ADDREQUIRES, PR_COMMAND_REMOVEREQUIRES};
+      // the unprivileged ones first
+      for (size_t h=0; h<cs.size(); h++) { if (c["priv"][h].truthy()) continue; Client * a = cs[h]; sessions++;
+         std::string before; PrivTree(a->sess->Root(), before); const uint32 nsess = w.srv->GetSessions().GetNumItems();
+         a->inbox.clear(); for (size_t k=0; k<5; k++) {MessageRef m = Msg(cmds[k]); m()->AddString(PR_NAME_KEYS, (k == 0) ? "/*/*" : "*"); w.Send(a, m);}
+         {MessageRef m = Msg(PR_COMMAND_KICK); m()->AddString(PR_NAME_KEYS, victim->root.c_str()); w.Send(a, m);}
+         SetStage("handling privileged commands of an unprivileged session"); w.Settle();
+         int den = 0; for (size_t k=0; k<a->inbox.size(); k++) if (a->inbox[k]()->what == PR_RESULT_ERRORACCESSDENIED) den++; denied += den;
+         const std::string who = "the session from " + a->name + " (privilege pattern " + pat + ")";
+         if (a->sess->GetParametersConst().HasName(PR_NAME_PRIVILEGE_BITS)) viol.push_back(who + " holds privilege bits although its address does not match the pattern");
+         if (den != 6) {char b[96]; snprintf(b, sizeof(b), ": %d of its 6 privileged commands were bounced with PR_RESULT_ERRORACCESSDENIED", den); viol.push_back(who + b);}
+         if (w.srv->GetSessions().GetNumItems() != nsess) viol.push_back(who + " disconnected another session with PR_COMMAND_KICK");
+         for (size_t q=0; q<w.cs.size(); q++) if ((!w.Attached(w.cs[q]))||(w.cs[q]->peerClosed)) viol.push_back(who + ": session " + w.cs[q]->name + " is gone");
+         if (viol.empty()) {std::string after; PrivTree(a->sess->Root(), after); if (before != after) viol.push_back(who + " changed the node tree with privileged commands");}
+         if (!viol.empty()) break; }
+      // the privileged ones: they hold the bits, and their KICK works (documented; a failure here is not this property's business: drift)
+      if (viol.empty()) for (size_t h=0; h<cs.size(); h++) { if (!c["priv"][h].truthy()) continue; Client * a = cs[h]; privileged++;
+         if (!a->sess->GetParametersConst().HasName(PR_NAME_PRIVILEGE_BITS)) {drift.push_back("the session from " + a->name + " did not get the privileges of pattern " + pat); continue;}
+         if (w.Attached(victim)) {MessageRef m = Msg(PR_COMMAND_KICK); m()->AddString(PR_NAME_KEYS, victim->root.c_str()); w.Send(a, m); w.Settle(); if (w.Attached(victim)) drift.push_back("PR_COMMAND_KICK of the privileged session from " + a->name + " did not disconnect its target"); else kicks++;} }
+      if ((!viol.empty())||(!drift.empty())) {J row = J::Obj(); row.set("case", c); if (!viol.empty()) {g_violCases++; row.set("violations", StrList(viol));} if (!drift.empty()) row.set("drift", StrList(drift)); RepJ(row);}
+   }
+   J s2 = J::Obj(); s2.set("summary", J::Bool(true)).set("cases", J::Int(g_cases)).set("unprivileged_sessions", J::Int(sessions)).set("access_denied_replies", J::Int(denied)).set("privileged_sessions", J::Int(privileged)).set("kicks_by_privileged", J::Int(kicks)).set("violating_cases", J::Int(g_violCases));
+   RepJ(s2); return 0;
 }
